@@ -1,6 +1,6 @@
 (** C04 - the layout engine only ever picks one of the layouts a document
     denotes.  Statements only; proofs are in Proofs/. *)
-From PP Require Import Doc Normalize Layout Render Sem Membership.
+From PP Require Import Doc Normalize Layout Render Sem Membership Pformat AnnotProofs AnnotE2E RenderProofs.
 
 (** Main theorem: for every document of the full algebra (fill, general
     flat_choice, annotate, align/hang, bare-str leaves, the string printer's
@@ -15,6 +15,62 @@ Theorem C04_membership :
     exists c', Lay evs w rw MBreak 0 0 d (strip out) c'.
 Proof. exact membership. Qed.
 Print Assumptions C04_membership.
+
+(** Annotations: in what the engine emits for a document without layout-stack
+    residue ([nopop]: no SAnnotationPop smuggled in as a document - the public
+    combinators cannot build one), pushes and pops are properly nested around
+    the fragments they wrap ([WN]: the stream is built from fragments, line
+    breaks, concatenation and push ++ stream ++ pop of the SAME annotation). *)
+Theorem C04_annotations_nested :
+  forall (evs : strp -> Z -> Z -> Z -> Z -> doc) w rw fuel ff smart d out,
+    (forall p i c, nopop (evs p i c w rw) = true) -> nopop d = true ->
+    best_layout evs fuel ff smart w rw d = Some out -> WN (strip out).
+Proof. exact engine_wellnested. Qed.
+Print Assumptions C04_annotations_nested.
+
+(** ... in particular in the stream pformat lays out, for every value and configuration *)
+Theorem C04_pformat_annotations_nested :
+  forall printable sp wd lb fuel ff v indent width rw depth maxlen sort out,
+    sdocs_model printable sp wd lb fuel ff v indent width rw depth maxlen sort = Some out -> WN (strip out).
+Proof. exact pformat_wellnested. Qed.
+Print Assumptions C04_pformat_annotations_nested.
+
+(** Annotations never change the text: every layout of a document, its pushes
+    and pops dropped, is a layout of the document with all annotations erased
+    (same fragments in the same order, same line breaks and indentations, same
+    end column) - and so is what the engine emits. *)
+Theorem C04_annotations_transparent :
+  forall (evs : strp -> Z -> Z -> Z -> Z -> doc) w rw m i c d o c',
+    Lay evs w rw m i c d o c' -> Lay (evs' evs) w rw m i c (erase d) (drop_ann o) c'.
+Proof. exact lay_erase. Qed.
+Print Assumptions C04_annotations_transparent.
+
+Theorem C04_engine_annotations_transparent :
+  forall (evs : strp -> Z -> Z -> Z -> Z -> doc) w rw fuel ff smart d out,
+    best_layout evs fuel ff smart w rw d = Some out ->
+    exists c', Lay (evs' evs) w rw MBreak 0 0 (erase d) (drop_ann (strip out)) c'.
+Proof. exact engine_erase. Qed.
+Print Assumptions C04_engine_annotations_transparent.
+
+(** The default renderer only trims white space at line ends: it cuts the
+    stream into lines (every line after the first begins with its SLine),
+    and what it writes for a line is the line's text minus a suffix consisting
+    of white space only - for ANY stream and any notion of white space. *)
+Theorem C04_render_only_trims :
+  forall (is_space : N -> bool) (l : list sdoc),
+  exists lines,
+    concat lines = l /\
+    plain l = flat_map plain lines /\
+    default_render is_space l = flat_map (render_line is_space) lines /\
+    Forall starts_line (tl lines) /\
+    Forall (fun line => exists ws, forallb is_space ws = true /\ plain line = render_line is_space line ++ ws) lines.
+Proof. exact render_only_trims. Qed.
+Print Assumptions C04_render_only_trims.
+
+Example C04_render_example :
+  default_render (fun c => N.eqb c 32) [SText [97; 32]%N; SPush (AOther 1); SText [32]%N; SPop (AOther 1); SLine 2; SText [98]%N]
+  = [97; 32; 10; 32; 32; 98]%N.
+Proof. vm_compute. reflexivity. Qed.
 
 (** Non-vacuity: a concrete non-trivial run returns a stream (group broken at
     width 6, nested group flat, annotation, fill). *)
